@@ -1,0 +1,50 @@
+//go:build verif
+
+// Contracts for the deductive verifier in /verif (govc). Comment-only.
+
+package ledger
+
+// ---- ghost: what CommitTransaction hands to the SQL layer ----------------------------------------------
+
+//@ ghost nUpdateVolumes int
+//@ ghost lastUpdates []ledger.AccountsVolumes
+//@ ghost lastPCV ledger.PostCommitVolumes
+//@ ghost nInsertTransaction int
+//@ ghost nInsertMoves int
+//@ ghost lastMoves []*ledger.Move
+
+//@ assumed func (store *Store) UpdateVolumes(ctx context.Context, accountVolumes ...ledger.AccountsVolumes) (r ledger.PostCommitVolumes, err error)
+//@   modifies nUpdateVolumes, lastUpdates, lastPCV
+//@   ensures nUpdateVolumes == old(nUpdateVolumes) + 1 && lastUpdates == accountVolumes && lastPCV == r
+//@   ensures err == nil ==> r != nil && wfPCV(r)
+//@   ensures err == nil ==> forall i int :: {accountVolumes[i]} 0 <= i && i < len(accountVolumes) ==> pcvHas(r, accountVolumes[i].Account, accountVolumes[i].Asset)
+
+//@ assumed func (store *Store) InsertTransaction(ctx context.Context, tx *ledger.Transaction) (err error)
+//@   requires tx != nil
+//@   modifies nInsertTransaction, tx
+//@   ensures nInsertTransaction == old(nInsertTransaction) + 1
+//@   ensures tx.Postings == old(tx.Postings) && tx.PostCommitVolumes == old(tx.PostCommitVolumes) && tx.Metadata == old(tx.Metadata) && tx.Reference == old(tx.Reference)
+//@   ensures err == nil ==> tx.ID != nil
+
+//@ assumed func (store *Store) InsertMoves(ctx context.Context, moves ...*ledger.Move) (err error)
+//@   modifies nInsertMoves, lastMoves
+//@   ensures nInsertMoves == old(nInsertMoves) + 1 && lastMoves == moves
+
+//@ assumed func slices.Reverse(s []ledger.Posting)
+//@   modifies s
+//@   ensures len(s) == len(old(s)) && forall i int :: {s[i]} 0 <= i && i < len(s) ==> s[i] == old(s)[len(s) - 1 - i]
+
+// ---- transactions.go: CommitTransaction (C01 C02 C03 C35) -------------------------------------------
+
+//@ func (store *Store) CommitTransaction(ctx context.Context, tx *ledger.Transaction) (err error)
+//@   property C03 C35
+//@   requires tx != nil && amountsNonNil(tx.Postings)
+//@   modifies tx, nUpdateVolumes, lastUpdates, lastPCV, nInsertTransaction, nInsertMoves, lastMoves
+//@   ensures nUpdateVolumes == old(nUpdateVolumes) + 1
+//@   ensures err == nil ==> nInsertTransaction == old(nInsertTransaction) + 1
+//@   ensures err == nil ==> tx.Postings == old(tx.Postings)
+//@   ensures err == nil ==> forall acc string, x string :: {pcvHas(tx.PostCommitVolumes, acc, x)} {pcvHas(lastPCV, acc, x)} pcvHas(tx.PostCommitVolumes, acc, x) == pcvHas(lastPCV, acc, x)
+//@   ensures err == nil ==> forall acc string, x string :: {pcvIn(tx.PostCommitVolumes, acc, x)} {pcvIn(lastPCV, acc, x)} pcvHas(lastPCV, acc, x) ==> pcvIn(tx.PostCommitVolumes, acc, x) == pcvIn(lastPCV, acc, x) && pcvOut(tx.PostCommitVolumes, acc, x) == pcvOut(lastPCV, acc, x)
+//@   ensures err == nil ==> (nInsertMoves == old(nInsertMoves) + 1) == (store.ledger.Features["MOVES_HISTORY"] == "ON")
+//@   ensures err == nil && store.ledger.Features["MOVES_HISTORY"] != "ON" ==> nInsertMoves == old(nInsertMoves)
+//@   ensures err == nil && nInsertMoves == old(nInsertMoves) + 1 ==> len(lastMoves) == 2 * len(tx.Postings)
